@@ -540,6 +540,53 @@ pub fn run(ctx: &Ctx, rep: &mut Report) {
                         needs_fail_for_auth = true;
                         class = format!("{}+unsignable-destination", class);
                     }
+                    // entry points the workload does not know, tried by the destination itself with a list
+                    // naming its message twice / once: one approval is at most one consumption, however
+                    // it is asked for
+                    if !unknown_fns.is_empty() && !dest_unsignable && matches!(auth, Auth::AsRecorded) && w.g.model.consumable(&m) {
+                        for twice in [true, false] {
+                            if !w.g.model.consumable(&m) {
+                                break;
+                            }
+                            let env = w.u.env.clone();
+                            let args: soroban_sdk::Vec<soroban_sdk::Val> = {
+                                use soroban_sdk::IntoVal;
+                                let one = sdk_message(&env, &m);
+                                let mut list: soroban_sdk::Vec<axelar_gateway::types::Message> = soroban_sdk::Vec::new(&env);
+                                list.push_back(one.clone());
+                                if twice {
+                                    list.push_back(one);
+                                }
+                                (addr_of(&env, &m.contract), list).into_val(&env)
+                            };
+                            for name in &unknown_fns {
+                                let (ga, n2, a2) = (w.g.addr.clone(), name.clone(), args.clone());
+                                let o = w.u.call(Auth::AsRecorded, &move |env: &soroban_sdk::Env| {
+                                    flat(env.try_invoke_contract::<soroban_sdk::Val, soroban_sdk::Error>(&ga, &soroban_sdk::Symbol::new(env, &n2), a2.clone())).map(|_| ())
+                                });
+                                rep.count("unknown-entry-point-tried");
+                                if o.ok() {
+                                    rep.count("note:unknown-entry-point-accepted-a-call");
+                                    let executed: Vec<Ev> = o.events.iter().filter(|e| e.contract == w.g.sc && e.kind() == "message_executed").cloned().collect();
+                                    rep.step(format!("unknown entry point {} accepted the destination's list (message named {}): {} message_executed", name, if twice { "twice" } else { "once" }, executed.len()));
+                                    for e in &o.events {
+                                        if e.contract == w.g.sc {
+                                            w.log.push(e.clone());
+                                        }
+                                    }
+                                    if executed.len() > 1 {
+                                        rep.violation("consumed-more-than-once-through-an-unknown-entry-point", format!("{} announced {} consumptions of one approved message", name, executed.len()));
+                                        dead = true;
+                                    } else if executed.len() == 1 {
+                                        w.g.model.apply_consume(&m);
+                                    }
+                                }
+                            }
+                        }
+                        if dead {
+                            continue;
+                        }
+                    }
                     let consumable = w.g.model.consumable(&m);
                     rep.step(format!(
                         "consume {} key=({:?},{:?}) status={} consumable={}",
